@@ -24,6 +24,8 @@ Kinds == {"profile", "stmt", "acctinfo", "tax"}
 Modes == {"dry", "skip", "normal"}
 
 \* nop: the clients created with persist_cookies=False - they keep no cookie and send none (the server still issues one)
+\* (the annotation is for Apalache, spec/APA_Net.tla; TLC ignores it)
+\* @type: ({jar: Str -> (Str -> Int), issued: Seq(<<Str, Str>>), next: Int, sent: Seq({client: Str, host: Str, creds: Str, kind: Str, cookie: Int, mode: Str})}, Str, Str, Str, Str, Str -> Bool, Str, Set(Str)) => {jar: Str -> (Str -> Int), issued: Seq(<<Str, Str>>), next: Int, sent: Seq({client: Str, host: Str, creds: Str, kind: Str, cookie: Int, mode: Str})};
 Post(st, c, h, creds, kind, sets, mode, nop) ==
   [jar |-> IF sets[h] /\ c \notin nop THEN [st.jar EXCEPT ![c][h] = st.next] ELSE st.jar,
    issued |-> IF sets[h] THEN Append(st.issued, <<c, h>>) ELSE st.issued,
